@@ -12,7 +12,6 @@ import (
 	"github.com/pkg/sftp"
 
 	"verifharness/lib"
-	"verifharness/peers"
 	"verifharness/wire"
 )
 
@@ -72,7 +71,7 @@ func c19TryClient(reply []byte, eofAfter bool) (ok bool, exts map[string]string,
 
 func checkC19(c *lib.Ctx) {
 	r := c.R
-	r.Rule = "client: handshake replies with versions {0..5, 2^31, 2^32-1} x extension lists, every truncation of a valid VERSION reply, every other type byte, PRNG bodies: construction succeeds iff type=2, version=3 and the extension list parses, and reports exactly the advertised extensions; server: every ordered subset of the supported extensions (and invalid names) through SetSFTPExtensions, the VERSION reply of both servers; extended requests with every advertised name, unknown, empty and long names: advertised ones are served, others answered OP_UNSUPPORTED and the session continues; non-trivial = malformed/unsupported case"
+	r.Rule = "client: handshake replies with versions {0..5, 2^31, 2^32-1} x extension lists, every truncation of a valid VERSION reply, every other type byte, PRNG bodies: construction succeeds iff type=2, version=3 and the extension list parses, and reports exactly the advertised extensions; server: every ordered subset of the supported extensions (plus lists with repetitions; invalid names from four prior lists) through SetSFTPExtensions x BOTH servers under EVERY subset of their options (os: ReadOnly, WithAllocator, WithServerWorkingDirectory, WithMaxTxPacket, WithDebug = 32 variants; request server: WithRSAllocator, WithStartDirectory, WithRSMaxTxPacket = 8 variants) x INIT variants (versions, client extension pairs): VERSION carries exactly the configured list; per session extended requests with every supported name (configured or not; absolute and relative paths; results checked on the tree; on a read-only server the mutating ones must be PERMISSION_DENIED and change nothing), ~110 unserved names (empty, other OpenSSH names, supported names in other case / without or with another domain / with NUL, blank, newline, one byte more or less, non-UTF-8, 255..65536 bytes (200000 thorough)) and PRNG names (random bytes, one-byte mutations of supported names) with rotating argument shapes (none, path, two paths, handle, random bytes, cut string): each must be answered STATUS OP_UNSUPPORTED with the request id, create nothing, and a following STAT must be answered; a pipelined batch per session (replies in order); requests that do not decode (id/name/argument cut or over-long, one session each) must end the session or be refused, never served; non-trivial = everything but a supported name with valid arguments; quick rotates a third of the fixed unserved names and a quarter of the malformed requests per (configuration, variant) except every fourth configuration"
 	// ---- client side ----
 	var lines, impl []string
 	versions := []uint32{0, 1, 2, 3, 4, 5, 1 << 31, 0xffffffff}
@@ -141,6 +140,40 @@ func checkC19(c *lib.Ctx) {
 				}
 			}
 		}
+	}
+	if c.Replay != "" {
+		// one recorded case: a server-side case (sect "ext") or a handshake reply given to the client
+		var ext c19ExtCase
+		var one c19Case
+		if err := lib.ReadReplay(c.Replay, &ext); err == nil && ext.Sect == "ext" {
+			root, err := os.MkdirTemp("", "vh-c19-")
+			if err != nil {
+				r.Fail(lib.Failure{Kind: "tie", Key: "tmpdir", What: err.Error()})
+				return
+			}
+			defer os.RemoveAll(root)
+			c19ReplayExt(c, ext, root)
+			return
+		}
+		if err := lib.ReadReplay(c.Replay, &one); err != nil {
+			r.Fail(lib.Failure{Kind: "tie", Key: "replay", What: err.Error()})
+			return
+		}
+		switch {
+		case one.Kind == "invalid-config" || one.Kind == "config":
+			prior := []string{}
+			if one.Name != "" {
+				prior = strings.Split(one.Name, ",")
+			}
+			cfg := []string{}
+			if one.Exts != "" || one.Kind == "invalid-config" {
+				cfg = strings.Split(one.Exts, ",")
+			}
+			c19ReplayConfig(c, one.Kind, prior, cfg)
+		default:
+			try(one.Kind, lib.UnHex(one.Hex), true)
+		}
+		return
 	}
 	for _, v := range versions {
 		for _, el := range extLists {
@@ -219,147 +252,13 @@ func checkC19(c *lib.Ctx) {
 		}
 	}
 
-	// ---- server side ----
-	supported := sftp.VerifSupportedExtensions()
-	var names []string
-	for _, e := range supported {
-		names = append(names, e[0])
-	}
-	defer sftp.SetSFTPExtensions(names...)
-	// all ordered subsets of the supported names (3 names: 16 sequences) + invalid requests
-	var configs [][]string
-	var perm func(cur []string, rest []string)
-	perm = func(cur []string, rest []string) {
-		configs = append(configs, append([]string(nil), cur...))
-		for i := range rest {
-			nr := append(append([]string(nil), rest[:i]...), rest[i+1:]...)
-			perm(append(cur, rest[i]), nr)
-		}
-	}
-	perm(nil, names)
-	invalid := [][]string{{"nope@example.com"}, {names[0], "nope@example.com"}, {"nope@example.com", names[0]}, {""}, {names[0], names[0], "x"}}
+	// ---- server side (c19_srv.go) ----
 	root, err := os.MkdirTemp("", "vh-c19-")
 	if err != nil {
 		r.Fail(lib.Failure{Kind: "tie", Key: "tmpdir", What: err.Error()})
 		return
 	}
 	defer os.RemoveAll(root)
-	os.WriteFile(filepath.Join(root, "f"), []byte("x"), 0o600)
-	advertised := func(kind string) ([][2]string, *peers.Srv, error) {
-		var s *peers.Srv
-		var err error
-		if kind == "os" {
-			s, err = peers.StartOS()
-			if err != nil {
-				return nil, nil, err
-			}
-		} else {
-			s = peers.StartRS(sftp.InMemHandler())
-		}
-		p, err := s.Handshake()
-		if err != nil {
-			return nil, s, err
-		}
-		d := wire.D{B: p.Body}
-		v := d.U32()
-		var got [][2]string
-		for len(d.B) > 0 && d.Err == nil {
-			n := d.Str()
-			dt := d.Str()
-			got = append(got, [2]string{n, dt})
-		}
-		if p.Typ != wire.Version || v != 3 || d.Err != nil {
-			return got, s, fmt.Errorf("bad VERSION reply: type %d version %d err %v", p.Typ, v, d.Err)
-		}
-		return got, s, nil
-	}
-	data := map[string]string{}
-	for _, e := range supported {
-		data[e[0]] = e[1]
-	}
-	for _, cfg := range configs {
-		if err := sftp.SetSFTPExtensions(cfg...); err != nil {
-			r.Fail(lib.Failure{Kind: "oracle", Key: "server/setextensions-valid-refused", What: "SetSFTPExtensions refused a list of supported names", Input: c19Case{Kind: "config", Exts: strings.Join(cfg, ",")}, Actual: err.Error()})
-			continue
-		}
-		var want [][2]string
-		for _, n := range cfg {
-			want = append(want, [2]string{n, data[n]})
-		}
-		for _, kind := range []string{"os", "rs"} {
-			got, s, err := advertised(kind)
-			r.Case(fmt.Sprintf("config %s %v", kind, cfg), len(cfg) != len(names))
-			r.Hist("server-config-" + kind)
-			if err != nil || fmt.Sprint(got) != fmt.Sprint(want) {
-				r.Fail(lib.Failure{Kind: "oracle", Key: "server/advertised-eq-configured", What: "extensions advertised in VERSION differ from those configured", Input: c19Case{Kind: kind, Exts: strings.Join(cfg, ",")}, Expected: want, Actual: fmt.Sprint(got, err)})
-			}
-			if s != nil {
-				// every advertised extension is served (os-backed server); other names are OP_UNSUPPORTED and the session continues
-				id := uint32(10)
-				reqNames := append([]string{}, names...)
-				reqNames = append(reqNames, "fsync@openssh.com", "unknown@example.com", "", strings.Repeat("n", 300))
-				for _, n := range reqNames {
-					id++
-					var body wire.B
-					switch n {
-					case "statvfs@openssh.com":
-						body = wire.B{}.Str(n).Str(root)
-					default:
-						body = wire.B{}.Str(n).Str(filepath.Join(root, "f")).Str(filepath.Join(root, fmt.Sprintf("g%d", id)))
-					}
-					p, err := s.Call(wire.Req(wire.Extended, id, body))
-					code := uint32(0xffffffff)
-					if err == nil && p.Typ == wire.Status {
-						d := wire.D{B: p.Body[4:]}
-						code = d.U32()
-					}
-					isAdv := false
-					for _, a := range cfg {
-						if a == n {
-							isAdv = true
-						}
-					}
-					served := false
-					for _, a := range names {
-						if a == n {
-							served = true
-						}
-					}
-					r.Case(fmt.Sprintf("ext %s %v %q", kind, cfg, n), !served)
-					r.Hist("server-extended-" + kind)
-					if err != nil || p.ID() != id {
-						r.Fail(lib.Failure{Kind: "oracle", Key: "server/extended-no-reply", What: "no (or misnumbered) reply to an extended request", Input: c19Case{Kind: kind, Exts: strings.Join(cfg, ","), Name: n}, Actual: fmt.Sprint(err)})
-						break
-					}
-					if isAdv && kind == "os" && code == wire.OpUnsupported {
-						r.Fail(lib.Failure{Kind: "oracle", Key: "server/advertised-not-served", What: "an advertised extension is answered OP_UNSUPPORTED by the os-backed server", Input: c19Case{Kind: kind, Exts: strings.Join(cfg, ","), Name: n}})
-					}
-					if !served && code != wire.OpUnsupported {
-						r.Fail(lib.Failure{Kind: "oracle", Key: "server/unknown-ext-not-unsupported", What: "an extended request with an unserved name is not answered OP_UNSUPPORTED", Input: c19Case{Kind: kind, Exts: strings.Join(cfg, ","), Name: n}, Expected: 8, Actual: fmt.Sprintf("type %d code %d", p.Typ, code)})
-					}
-				}
-				// session continues
-				id++
-				if p, err := s.Call(wire.Req(wire.Stat, id, wire.B{}.Str("/"))); err != nil || p.ID() != id || (p.Typ != wire.Attrs && p.Typ != wire.Status) {
-					r.Fail(lib.Failure{Kind: "oracle", Key: "server/session-ended-after-extended", What: "the session does not continue after extended requests", Input: c19Case{Kind: kind, Exts: strings.Join(cfg, ",")}, Actual: fmt.Sprint(p.Typ, err)})
-				}
-				s.CloseInput()
-				s.Wait(5 * time.Second)
-			}
-		}
-	}
-	// invalid configuration requests change nothing
-	sftp.SetSFTPExtensions(names[0])
-	before := fmt.Sprint(sftp.VerifSftpExtensions())
-	for _, cfg := range invalid {
-		err := sftp.SetSFTPExtensions(cfg...)
-		after := fmt.Sprint(sftp.VerifSftpExtensions())
-		r.Case(fmt.Sprintf("invalid-config %v", cfg), true)
-		r.Hist("server-invalid-config")
-		if err == nil || after != before {
-			r.Fail(lib.Failure{Kind: "oracle", Key: "server/invalid-config-not-atomic", What: "an invalid SetSFTPExtensions request must fail and change nothing", Input: c19Case{Kind: "invalid-config", Exts: strings.Join(cfg, ",")}, Expected: before, Actual: fmt.Sprint(after, " err=", err)})
-		}
-	}
+	c19Server(c, root)
 	r.Sample(map[string]any{"handshake_reply": lib.Hex(valid), "accepted": true})
-	r.Sample(map[string]any{"config": names[:1], "advertised": before})
 }
